@@ -50,6 +50,9 @@ def run(pid, tier):
         area_mem.clean_ttrace()
         if "Invariant ArrayContract is violated" not in rn["out"]:
             raise Broken("FloatModel negative control (span measured before rounding) found no counterexample")
+        # the same contract for the real binary64 format, every normal double, by Apalache
+        lemmas = vlib.unbounded_lemmas(model, "FloatMath", ["Contract"],
+                                       ("e2 == IF carried THEN ee + 1 ELSE ee", "e2 == ee", "Contract"))
         path = os.path.join(work, "classes.txt")
         with open(path, "w") as f:
             f.write("\n".join(classes_txt) + "\n")
@@ -86,7 +89,7 @@ def run(pid, tier):
         return vlib.finish(pid, tier, t0, model, events, len(traces), rejects, samples, classes, rule,
                            ["binary64 host doubles; bit patterns compared, no floating-point arithmetic in the oracle",
                             "values inside a class are seeded samples"],
-                           extra={"negative_control": neg, "model_negative_control": {"ran": True, "counterexample_found": True},
+                           extra={"unbounded_lemmas_apalache": lemmas, "negative_control": neg, "model_negative_control": {"ran": True, "counterexample_found": True},
                                   "tiers": tiers, "values_judged": values})
     finally:
         shutil.rmtree(work, ignore_errors=True)
